@@ -103,7 +103,7 @@ def main(argv=None):
     ap.add_argument("--replay", default=None)
     args = ap.parse_args(argv)
     pid = args.pid
-    seed = int(os.environ.get("VERIF_SEED", "20260926"))
+    seed = int(os.environ.get("VERIF_SEED") or "20260926")
     os.chdir(VERIF)
     t0 = time.time()
     try:
